@@ -319,3 +319,7 @@ V("C03", "worker-callback-args", PYR, "        callback(*args)\n", "        call
 V2("C08", "P-count-memo-fresh-subtiling", [('toasty/study.py', '    def __init__(self, width, height):\n        """Set up the tiling information.\n', '    _n_populated = None\n\n    def __init__(self, width, height):\n        """Set up the tiling information.\n'), ('toasty/study.py', '        img_gx1 = self._img_gx0 + self._width - 1\n        img_gy1 = self._img_gy0 + self._height - 1\n        tile_start_tx = self._img_gx0 // 256\n        tile_start_ty = self._img_gy0 // 256\n        tile_end_tx = img_gx1 // 256\n        tile_end_ty = img_gy1 // 256\n        return (tile_end_ty + 1 - tile_start_ty) * (tile_end_tx + 1 - tile_start_tx)\n', '        if self._n_populated is None:\n            img_gx1 = self._img_gx0 + self._width - 1\n            img_gy1 = self._img_gy0 + self._height - 1\n            tile_start_tx = self._img_gx0 // 256\n            tile_start_ty = self._img_gy0 // 256\n            tile_end_tx = img_gx1 // 256\n            tile_end_ty = img_gy1 // 256\n            self._n_populated = (tile_end_ty + 1 - tile_start_ty) * (tile_end_tx + 1 - tile_start_tx)\n        return self._n_populated\n')], "HOLDS", note="memoised count; sub-tilings are constructed afresh, so their cache starts empty")
 V2("C08", "count-memo-copied-subtiling", [('toasty/study.py', '    def __init__(self, width, height):\n        """Set up the tiling information.\n', '    _n_populated = None\n\n    def __init__(self, width, height):\n        """Set up the tiling information.\n'), ('toasty/study.py', '        img_gx1 = self._img_gx0 + self._width - 1\n        img_gy1 = self._img_gy0 + self._height - 1\n        tile_start_tx = self._img_gx0 // 256\n        tile_start_ty = self._img_gy0 // 256\n        tile_end_tx = img_gx1 // 256\n        tile_end_ty = img_gy1 // 256\n        return (tile_end_ty + 1 - tile_start_ty) * (tile_end_tx + 1 - tile_start_tx)\n', '        if self._n_populated is None:\n            img_gx1 = self._img_gx0 + self._width - 1\n            img_gy1 = self._img_gy0 + self._height - 1\n            tile_start_tx = self._img_gx0 // 256\n            tile_start_ty = self._img_gy0 // 256\n            tile_end_tx = img_gx1 // 256\n            tile_end_ty = img_gy1 // 256\n            self._n_populated = (tile_end_ty + 1 - tile_start_ty) * (tile_end_tx + 1 - tile_start_tx)\n        return self._n_populated\n'), ('toasty/study.py', '        sub_tiling = StudyTiling(self._width, self._height)\n', '        import copy\n        sub_tiling = copy.copy(self)\n')], "C08.R1", note="the sub-tiling is a copy of the parent and inherits its remembered count")
 V2("C08", "P-count-memo-copied-reset", [('toasty/study.py', '    def __init__(self, width, height):\n        """Set up the tiling information.\n', '    _n_populated = None\n\n    def __init__(self, width, height):\n        """Set up the tiling information.\n'), ('toasty/study.py', '        img_gx1 = self._img_gx0 + self._width - 1\n        img_gy1 = self._img_gy0 + self._height - 1\n        tile_start_tx = self._img_gx0 // 256\n        tile_start_ty = self._img_gy0 // 256\n        tile_end_tx = img_gx1 // 256\n        tile_end_ty = img_gy1 // 256\n        return (tile_end_ty + 1 - tile_start_ty) * (tile_end_tx + 1 - tile_start_tx)\n', '        if self._n_populated is None:\n            img_gx1 = self._img_gx0 + self._width - 1\n            img_gy1 = self._img_gy0 + self._height - 1\n            tile_start_tx = self._img_gx0 // 256\n            tile_start_ty = self._img_gy0 // 256\n            tile_end_tx = img_gx1 // 256\n            tile_end_ty = img_gy1 // 256\n            self._n_populated = (tile_end_ty + 1 - tile_start_ty) * (tile_end_tx + 1 - tile_start_tx)\n        return self._n_populated\n'), ('toasty/study.py', '        sub_tiling = StudyTiling(self._width, self._height)\n', '        import copy\n        sub_tiling = copy.copy(self)\n        sub_tiling._n_populated = None\n')], "HOLDS", note="copy, but the remembered count is reset before the rectangle is changed")
+
+# the liveness check moved into the try of the polling loop (round-3 seed C19-p1): fine while the handler cannot catch what it raises
+V("C19", "P-check-inside-try", PYR, '                try:\n                    pos = done_queue.get(True, timeout=1)\n                except (OSError, ValueError, Empty):\n                    # OSError or ValueError => queue closed. This signal seems not to\n                    # cross multiprocess lines, though. If a worker died, the tile\n                    # that it was processing will never be reported as done.\n                    check_workers(workers, done_event)\n                    continue\n', '                try:\n                    check_workers(workers, done_event)\n                    pos = done_queue.get(True, timeout=1)\n                except (OSError, ValueError, Empty):\n                    continue\n', "HOLDS", note="check_workers raises Exception, the handler catches OSError/ValueError/Empty only")
+V2("C19", "check-inside-try-swallowed", [('toasty/pyramid.py', '                try:\n                    pos = done_queue.get(True, timeout=1)\n                except (OSError, ValueError, Empty):\n                    # OSError or ValueError => queue closed. This signal seems not to\n                    # cross multiprocess lines, though. If a worker died, the tile\n                    # that it was processing will never be reported as done.\n                    check_workers(workers, done_event)\n                    continue\n', '                try:\n                    check_workers(workers, done_event)\n                    pos = done_queue.get(True, timeout=1)\n                except (OSError, ValueError, Empty):\n                    continue\n'), ('toasty/par_util.py', '            raise Exception(\n                f"a worker process failed (exit code {w.exitcode}); see its error message above"\n            )', '            raise ChildProcessError(\n                f"a worker process failed (exit code {w.exitcode}); see its error message above"\n            )')], "C19.R2", note="check_workers now raises an OSError subclass which the polling handler swallows")
